@@ -54,13 +54,19 @@ def run(F):
             continue
         n += len(sites)
         fn = b.path.split("::{closure")[0].split("::")[-1]
-        sa = [t for bi, t in b.calls() if str(callee(t)[2]) == "stability_analysis"]
         iid = "nosplit|%s" % fn
+        host, host_closure = b, None
+        if b.is_closure() and F.body(b.d.get("parent") or "") is not None:
+            # `list.pop().ok_or_else(|| EosError::NoPhaseSplit)`: judged where the closure is used
+            host, host_closure = F.body(b.d.get("parent")), b.path
+        sa = [t for bi, t in host.calls() if str(callee(t)[2]) == "stability_analysis"]
         if not sa:
             r.inst(iid, sites[0][1].get("span", b.file_line()), "violation")
             r.fail(iid + "|unreviewed", sites[0][1].get("span", b.file_line()),
                    "%s raises EosError::NoPhaseSplit but does not obtain candidates from stability_analysis: not the reviewed place" % fn)
             continue
+        site_body = b
+        b = host
         defs = Defs(b)
         dom = dominators(b)
         roots = {t["dest"]["l"] for t in sa}
@@ -80,8 +86,51 @@ def run(F):
                     changed = True
         shrink_blocks = [bi for bi, t in b.calls() if str(callee(t)[2]) in SHRINK and t["args"] and t["args"][0].get("k") in ("copy", "move")
                          and _reaches(b, defs, t["args"][0]["place"]["l"], roots)]
+        def lazy_error_of_first_probe(val_local=None):
+            """the error value is handed to `probe.ok_or(value)` / `probe.ok_or_else(closure)` where probe is the first probe of the list:
+            it becomes the result only if the probe found nothing"""
+            import boolsum
+            for bi_, t_ in b.calls():
+                nm_ = str(callee(t_)[2])
+                if nm_ not in ("ok_or", "ok_or_else") or len(t_["args"]) != 2 or t_["args"][0].get("k") not in ("copy", "move"):
+                    continue
+                if nm_ == "ok_or":
+                    a1 = t_["args"][1]
+                    l1 = a1["place"]["l"] if a1.get("k") in ("copy", "move") else None
+                    hit = False
+                    for _ in range(4):
+                        if l1 is None:
+                            break
+                        if l1 == val_local:
+                            hit = True
+                            break
+                        d1 = defs.of(l1)
+                        l1 = d1[0][4]["op"]["place"]["l"] if len(d1) == 1 and d1[0][0] == "stmt" and d1[0][4]["k"] == "use" and d1[0][4]["op"].get("k") in ("copy", "move") else None
+                    if not hit:
+                        continue
+                else:
+                    if host_closure is None or boolsum.closure_def_of_type(b.opty(t_["args"][1])) != host_closure:
+                        continue
+                pds_ = defs.of(t_["args"][0]["place"]["l"])
+                if len(pds_) == 1 and pds_[0][0] == "call" and str(callee(pds_[0][2])[2]) in PROBES and pds_[0][2]["args"] \
+                        and pds_[0][2]["args"][0].get("k") in ("copy", "move") and _reaches(b, defs, pds_[0][2]["args"][0]["place"]["l"], roots):
+                    probe_bi_ = pds_[0][1]
+                    if not [x for x in shrink_blocks if x != probe_bi_ and x in dom.get(probe_bi_, ())]:
+                        return True
+            return False
+
+        if host_closure is not None:
+            ok = lazy_error_of_first_probe()
+            for ebi, st in sites:
+                if ok:
+                    r.inst(iid, st.get("span", site_body.file_line()), "ok", form="ok_or_else on the first probe")
+                else:
+                    r.inst(iid, st.get("span", site_body.file_line()), "violation")
+                    r.fail(iid, st.get("span", site_body.file_line()),
+                           "%s raises EosError::NoPhaseSplit in a closure that is not the fallback of the first probe of the candidate list" % fn)
+            continue
         for ebi, st in sites:
-            ok = False
+            ok = lazy_error_of_first_probe(st["place"]["l"])
             for sbi, blk in enumerate(b.blocks):
                 t = blk["term"]
                 if t["k"] != "switch" or sbi not in dom.get(ebi, ()) or t["op"].get("k") not in ("copy", "move"):
